@@ -9,7 +9,8 @@ Inductive dop :=
 | DCopyRows (rows : list nat) (junk : list (nat * nat))
 | DCopyCols (cols : list nat) (junk : list (nat * nat))
 | DXorRows (from to : nat) | DRowWeight (i : nat) | DColWeight (j : nat) | DRowEmpty (i : nat)
-| DRowWeightIF (i nb : nat).                            (* of_mod2dense_row_weight_ignore_first *)
+| DRowWeightIF (i nb : nat)                             (* of_mod2dense_row_weight_ignore_first *)
+| DSwapPtr (i j : nat).                                 (* exchange of two row pointers, as the solver's pivoting does *)
 
 (* result code of the weight with ignored words: the weight, 9999 for UINT32(-1), 9998 when the model says the C would read past the row *)
 Definition wif_code (o : option Z) : nat :=
@@ -31,6 +32,8 @@ Definition dense_step (m : dmat) (o : dop) : dmat * nat :=
   | DColWeight j => (m, d_col_weight m j)
   | DRowEmpty i => (m, if d_row_is_empty m i then 1 else 0)
   | DRowWeightIF i nb => (m, wif_code (d_row_weight_ignore_first m i nb))
+  | DSwapPtr i j => ({| dr := dr m; dc := dc m; dw := dw m;
+                        drows := upd (upd (drows m) i (nth j (drows m) [])) j (nth i (drows m) []) |}, 0)
   end.
 
 (* of_hweight_array on a raw array of 32-bit words *)
